@@ -316,8 +316,27 @@ impl<K: CacheKey + 'static> DiskCache<K> {
         }
     }
 
-    /// Write data to disk file atomically
-    async fn write_file(&self, path: &Path, data: &Bytes) -> CacheResult<()> {
+    /// Temporary file name for a write to `path`.
+    ///
+    /// The name is derived from the *full* file name (not `with_extension`,
+    /// which would map `a.x` and `a.y` to the same temporary file) and is
+    /// unique per write, so concurrent writers never share a temporary file.
+    fn temp_path_for(path: &Path) -> PathBuf {
+        static TEMP_COUNTER: AtomicU64 = AtomicU64::new(0);
+        let unique = TEMP_COUNTER.fetch_add(1, Ordering::Relaxed);
+        let mut name = path
+            .file_name()
+            .map(std::ffi::OsStr::to_os_string)
+            .unwrap_or_default();
+        name.push(format!(".{}.{unique}.tmp", std::process::id()));
+        path.with_file_name(name)
+    }
+
+    /// Write data to a private temporary file next to `path` and sync it.
+    ///
+    /// The caller publishes the file by renaming it over `path` while it holds
+    /// the index lock, so that the file and its index entry change together.
+    async fn write_temp_file(&self, path: &Path, data: &Bytes) -> CacheResult<PathBuf> {
         let _permit = self
             .io_semaphore
             .acquire()
@@ -325,7 +344,7 @@ impl<K: CacheKey + 'static> DiskCache<K> {
             .map_err(|_| CacheError::Backend("Failed to acquire I/O semaphore".to_string()))?;
 
         // Write to temporary file first for atomicity
-        let temp_path = path.with_extension("tmp");
+        let temp_path = Self::temp_path_for(path);
         #[cfg(feature = "verif-hooks")]
         crate::verif_hooks::sched_point("disk.write_file.before_temp_open");
 
@@ -362,10 +381,8 @@ impl<K: CacheKey + 'static> DiskCache<K> {
 
         #[cfg(feature = "verif-hooks")]
         crate::verif_hooks::sched_point("disk.write_file.before_rename");
-        // Atomic rename
-        fs::rename(&temp_path, path).map_err(CacheError::Io)?;
 
-        Ok(())
+        Ok(temp_path)
     }
 
     /// Read data from disk file
@@ -500,15 +517,19 @@ impl<K: CacheKey + 'static> AsyncCache<K> for DiskCache<K> {
 
         if let Some(entry) = entry_info {
             if entry.is_expired() {
-                // Remove expired entry
-                if let Ok(mut index) = self.index.write() {
-                    index.remove(key);
+                // Remove the entry only if it is still the expired one: a
+                // concurrent put may have replaced it since the index was read.
+                if let Ok(mut index) = self.index.write()
+                    && index.get(key).is_some_and(DiskCacheEntry::is_expired)
+                    && let Some(removed) = index.remove(key)
+                {
                     self.entry_count.fetch_sub(1, Ordering::Relaxed);
                     self.disk_usage
-                        .fetch_sub(entry.size_bytes as u64, Ordering::Relaxed);
+                        .fetch_sub(removed.size_bytes as u64, Ordering::Relaxed);
 
-                    // Delete file
-                    let _ = fs::remove_file(&entry.file_path);
+                    // Delete file (under the index lock, like every other
+                    // creation or deletion of a cache file)
+                    let _ = fs::remove_file(&removed.file_path);
                 }
 
                 self.metrics.record_get(false, start_time.elapsed());
@@ -533,16 +554,29 @@ impl<K: CacheKey + 'static> AsyncCache<K> for DiskCache<K> {
                     Ok(Some(data))
                 }
                 Err(e) => {
-                    // File read failed - remove from index
-                    if let Ok(mut index) = self.index.write() {
-                        index.remove(key);
+                    // File read failed - drop the index entry if it still
+                    // points at a missing file (files are only created and
+                    // deleted under the index lock, so the check is stable).
+                    let vanished = matches!(&e, CacheError::Io(io) if io.kind() == std::io::ErrorKind::NotFound);
+                    if let Ok(mut index) = self.index.write()
+                        && index
+                            .get(key)
+                            .is_some_and(|current| !vanished || !current.file_path.exists())
+                        && let Some(removed) = index.remove(key)
+                    {
                         self.entry_count.fetch_sub(1, Ordering::Relaxed);
                         self.disk_usage
-                            .fetch_sub(entry.size_bytes as u64, Ordering::Relaxed);
+                            .fetch_sub(removed.size_bytes as u64, Ordering::Relaxed);
                     }
 
                     self.metrics.record_get(false, start_time.elapsed());
-                    Err(e)
+                    if vanished {
+                        // The entry was removed (remove/clear/expiry) after the
+                        // index was read: that is a miss, not a failure.
+                        Ok(None)
+                    } else {
+                        Err(e)
+                    }
                 }
             }
         } else {
@@ -568,7 +602,12 @@ impl<K: CacheKey + 'static> AsyncCache<K> for DiskCache<K> {
                             access_count: 1,
                         };
 
-                        if let Ok(mut index) = self.index.write() {
+                        // Only adopt the file if nobody indexed the key or
+                        // deleted the file in the meantime.
+                        if let Ok(mut index) = self.index.write()
+                            && !index.contains_key(key)
+                            && file_path.exists()
+                        {
                             index.insert(key.clone(), entry);
                             self.entry_count.fetch_add(1, Ordering::Relaxed);
                             self.disk_usage
@@ -603,43 +642,67 @@ impl<K: CacheKey + 'static> AsyncCache<K> for DiskCache<K> {
 
         #[cfg(feature = "verif-hooks")]
         crate::verif_hooks::sched_point("disk.put.before_write_file");
-        // Write data to disk
-        self.write_file(&file_path, &value).await?;
 
-        #[cfg(feature = "verif-hooks")]
-        crate::verif_hooks::sched_point("disk.put.before_index_update");
-        // Update index
-        {
-            let mut index = self
-                .index
-                .write()
-                .map_err(|_| CacheError::LockTimeout("index write lock".to_string()))?;
+        // The slow part (write + fsync of a private temporary file) happens
+        // outside the index lock; publishing the file (rename) and updating the
+        // index happen together under the lock, so readers, removers and other
+        // writers always see a file and an index entry that belong together.
+        let mut attempts = 0;
+        loop {
+            let temp_path = self.write_temp_file(&file_path, &value).await?;
 
-            let entry = DiskCacheEntry::new(file_path.clone(), size_bytes, Some(ttl));
+            #[cfg(feature = "verif-hooks")]
+            crate::verif_hooks::sched_point("disk.put.before_index_update");
 
-            if let Some(old_entry) = index.insert(key, entry) {
-                // Updating existing entry - adjust disk usage
-                let old_size = old_entry.size_bytes as u64;
-                let new_size = size_bytes as u64;
+            let published = {
+                let mut index = self
+                    .index
+                    .write()
+                    .map_err(|_| CacheError::LockTimeout("index write lock".to_string()))?;
 
-                if new_size > old_size {
-                    self.disk_usage
-                        .fetch_add(new_size - old_size, Ordering::Relaxed);
-                } else {
-                    self.disk_usage
-                        .fetch_sub(old_size - new_size, Ordering::Relaxed);
+                match fs::rename(&temp_path, &file_path) {
+                    Ok(()) => {
+                        let entry = DiskCacheEntry::new(file_path.clone(), size_bytes, Some(ttl));
+
+                        if let Some(old_entry) = index.insert(key.clone(), entry) {
+                            // Updating existing entry - adjust disk usage
+                            let old_size = old_entry.size_bytes as u64;
+                            let new_size = size_bytes as u64;
+
+                            if new_size > old_size {
+                                self.disk_usage
+                                    .fetch_add(new_size - old_size, Ordering::Relaxed);
+                            } else {
+                                self.disk_usage
+                                    .fetch_sub(old_size - new_size, Ordering::Relaxed);
+                            }
+
+                            // Clean up old file if path changed
+                            if old_entry.file_path != file_path {
+                                let _ = fs::remove_file(&old_entry.file_path);
+                            }
+                        } else {
+                            // New entry
+                            self.entry_count.fetch_add(1, Ordering::Relaxed);
+                            self.disk_usage
+                                .fetch_add(size_bytes as u64, Ordering::Relaxed);
+                        }
+                        Ok(true)
+                    }
+                    // A concurrent clear() wiped the temporary file before it
+                    // could be published: write it again.
+                    Err(e) if e.kind() == std::io::ErrorKind::NotFound && attempts < 2 => Ok(false),
+                    Err(e) => {
+                        let _ = fs::remove_file(&temp_path);
+                        Err(CacheError::Io(e))
+                    }
                 }
+            }?;
 
-                // Clean up old file if path changed
-                if old_entry.file_path != file_path {
-                    let _ = fs::remove_file(&old_entry.file_path);
-                }
-            } else {
-                // New entry
-                self.entry_count.fetch_add(1, Ordering::Relaxed);
-                self.disk_usage
-                    .fetch_add(size_bytes as u64, Ordering::Relaxed);
+            if published {
+                break;
             }
+            attempts += 1;
         }
 
         self.metrics.record_put(size_bytes, start_time.elapsed());
@@ -699,18 +762,21 @@ impl<K: CacheKey + 'static> AsyncCache<K> for DiskCache<K> {
         }
 
         index.clear();
-        drop(index); // Release lock early to reduce contention
-        #[cfg(feature = "verif-hooks")]
-        crate::verif_hooks::sched_point("disk.clear.after_index_clear");
 
+        // Counters and the directory wipe belong to the same step as the index
+        // reset: a put that publishes its file right after the lock is released
+        // must neither be forgotten by the counters nor lose its file.
         self.entry_count.store(0, Ordering::Relaxed);
         self.disk_usage.store(0, Ordering::Relaxed);
         self.metrics.reset();
 
         // Also clean up any remaining files and subdirectories
-        self.clear_directory_recursive(&self.config.cache_dir)?;
+        let wiped = self.clear_directory_recursive(&self.config.cache_dir);
+        drop(index);
+        #[cfg(feature = "verif-hooks")]
+        crate::verif_hooks::sched_point("disk.clear.after_index_clear");
 
-        Ok(())
+        wiped
     }
 
     async fn stats(&self) -> CacheResult<crate::stats::CacheStats> {
